@@ -303,6 +303,19 @@ def gen_line(rng):
     return line_case(cands, line, w, l, E)
 
 
+def with_prior(rng, case):
+    """the record held another ranking before (see impl_ballot)"""
+    cands = list(case["cands"])
+    for _ in range(6):
+        r = list(cands)
+        rng.shuffle(r)
+        r = r[: rng.randint(1, len(r))]
+        if r != case.get("r"):
+            break
+    case["prior"] = {"a": enc_a(r), "how": rng.choice(["assign", "item", "merge"])}
+    return case
+
+
 def gen(rng, n, tier):
     count = 0
     top = 4 if tier == "quick" else 5
@@ -317,7 +330,10 @@ def gen(rng, n, tier):
                     continue
                 for E in subsets([c for c in cands if c not in (w, l)]):
                     for r in partial_rankings(cands):
-                        yield ballot_case(cands, r, w, l, E)
+                        c = ballot_case(cands, r, w, l, E)
+                        if nc >= 2 and rng.chance(0.15):
+                            with_prior(rng, c)
+                        yield c
                         count += 1
     # rankings that mention a candidate outside the contest (outside the quantifier; model correspondence)
     for r in partial_rankings(["A", "B", "X"]):
@@ -341,7 +357,10 @@ def gen(rng, n, tier):
     rest = max(n - count, 300)
     nfiles = int(rest * 0.35)
     for i in range(rest - nfiles):
-        yield gen_line(rng) if i % 4 == 0 else gen_raw(rng)
+        c = gen_line(rng) if i % 4 == 0 else gen_raw(rng)
+        if rng.chance(0.15):
+            with_prior(rng, c)
+        yield c
     for _ in range(nfiles):
         yield gen_file(rng, tier)
 
@@ -400,6 +419,25 @@ def impl_ballot(case):
     neb, nen = _make_assertions(contest, cands, [["NEB", w, l, []], ["NEN", w, l, E]])
     cvr = CVR.from_vote({c: k for c, k in case["a"]}, id="1", contest_id=cid)
     remn = list(nen.assorter.assort.__defaults__[3])      # the `remn` the IRV_ELIMINATION lambda closed over
+    if case.get("prior") is not None:
+        # the record is not fresh: it held ANOTHER ranking (an earlier scan of the card) on which the same questions were
+        # already asked, and was then corrected in place -- by assignment, or by merging in a later record for the same
+        # card (CVR.merge_cvrs replaces the contest's votes).  The answers are a function of the votes it holds NOW.
+        cvr = CVR.from_vote({c: k for c, k in case["prior"]["a"]}, id="1", contest_id=cid)
+        for f in (lambda: neb.assorter.assort(cvr), lambda: nen.assorter.assort(cvr),
+                  lambda: cvr.rcv_votefor_cand(cid, w, remn), lambda: cvr.rcv_votefor_cand(cid, l, remn),
+                  lambda: cvr.rcv_lfunc_wo(cid, w, l)):
+            try:
+                f()
+            except Exception:  # noqa
+                pass
+        now = {c: k for c, k in case["a"]}
+        if case["prior"]["how"] == "merge":
+            cvr = CVR.merge_cvrs([cvr, CVR(id="1", votes={cid: now})])[0]
+        elif case["prior"]["how"] == "item":
+            cvr.votes[cid] = now
+        else:
+            cvr.votes = {cid: now}
     gcvr = {cid: {c: k for c, k in case["g"]}}
     gneb = NEBAssertion(cid, w, l)
     gnen = NENAssertion(cid, w, l, list(E))
